@@ -85,6 +85,19 @@ def build(G, B, r):
         if 'default' in o:
             kw['default'] = B.value(o['default'])
         return Node(k, r, getattr(G, k)(*[c.obj for c in ch], **kw), ch, extra=o)
+    if k == 'SpecWrap':
+        # Spec(<sub>): a spec level of its own; it also keeps what <sub> does to the mode from
+        # reaching the later steps of an enclosing tuple (glom chains a tuple's steps through the
+        # scope of the previous step, and Match() switches the mode in its scope)
+        c = build(G, B, r[1])
+        return Node('SpecWrap', r, G.Spec(c.obj), [c])
+    if k == 'type':
+        import builtins
+        return Node('type', r, getattr(builtins, r[1]))
+    if k == 'MatchOf':
+        # Match(<sub>): the sub-spec is evaluated in match mode (types are isinstance tests)
+        c = build(G, B, r[1])
+        return Node('MatchOf', r, G.Match(c.obj), [c])
     if k == 'MatchLit':
         # Match(<literal>): fails with MatchError unless the target equals the literal
         return Node('MatchLit', r, G.Match(r[1]), [Node('lit', r, r[1])], extra=r[1])
@@ -257,6 +270,14 @@ class Walker:
                 # the Check itself fails, AFTER its sub-spec was evaluated successfully
                 raise MErr('CheckError', 'failed check', True, n, t)
             return t
+        if k == 'SpecWrap':
+            return self.ev(n.children[0], t)
+        if k == 'type':
+            if not isinstance(t, n.obj):
+                raise MErr('TypeMatchError', 'expected type', True, n, t)
+            return t
+        if k == 'MatchOf':
+            return self.ev(n.children[0], t)
         if k == 'MatchLit':
             return self.ev(n.children[0], t)      # (the literal is a spec level of its own, in match mode)
         if k == 'lit':
